@@ -258,9 +258,12 @@ def _iso_spec(rng, cfg):
     if kind == "point":
         n = rng.randint(4, 8)
         base_p = [0.1 * (i + 1) for i in range(n)]
-        scale = rng.choice([1.0, 1.0, 2.5])
-        p = [round(x * scale, 6) for x in base_p]
-        l = [round(1.5 * x / (1 + x) * scale + 0.125, 6) for x in base_p]
+        # incl. values with 16 significant digits.  (No magnitudes below 1e-8: the identifier rounds data to 8 decimals, so
+        # different tiny data sets are by design one key - a question of what identity means, C05, not of the store.)
+        scale = rng.choice([1.0, 1.0, 2.5, 1.0 / 3.0, 7.0 / 9.0])
+        nd = 6 if scale in (1.0, 2.5) else 18
+        p = [round(x * scale, nd) for x in base_p]
+        l = [round(1.5 * x / (1 + x) * scale + 0.125 * scale, nd) for x in base_p]
         if rng.random() < 0.4:
             for j in range(rng.randint(1, n - 2)):
                 src = n - 2 - j
@@ -288,8 +291,10 @@ def _iso_spec(rng, cfg):
             spec["branch"] = "ads"
             spec["other"] = {}
     elif kind == "model":
+        if rng.random() < 0.35:
+            spec["meta"]["branch"] = "des"      # the branch a model isotherm describes is content
         if rng.random() < 0.5:
-            spec["model"] = {"name": "Langmuir", "rmse": 0.0125, "parameters": {"K": rng.choice([1.5, 2.25]), "n_m": 3.5},
+            spec["model"] = {"name": "Langmuir", "rmse": 0.0125, "parameters": {"K": rng.choice([1.5, 2.25, 1.0 / 7.0]), "n_m": 3.5},
                              "pressure_range": [0.1, 5.0], "loading_range": [0.25, 3.0]}
         else:
             spec["model"] = {"name": "Henry", "rmse": 0.5, "parameters": {"K": rng.choice([0.75, 1.25])},
@@ -689,7 +694,7 @@ class Run:
                 e = want[k]
                 # the material is a keyed item of the same file: its properties are the file's entry
                 file_mat = fm.mats.get(e["mname"])
-                if file_mat is not None and dg.diff(c["mat"], file_mat) is not None:
+                if file_mat is not None and dg.diff(c["mat"], file_mat, rtol=0.0) is not None:
                     self.fail("retrieved-differs", "table=isotherms field=material-properties",
                               {"op": opdesc, "where": where, "restarted": self._restarted(op), "got": c["mat"], "file": file_mat})
                     return
@@ -757,7 +762,7 @@ class Run:
                       f"extra={len(extra) > 0}", {"missing": miss[:5], "extra": extra[:5]})
             return
         for k in sorted(want):
-            d = dg.diff(got[k], want[k])
+            d = dg.diff(got[k], want[k], rtol=0.0)     # a store returns exactly what it was given
             if d is not None:
                 gd, wd = rs._cd(got[k]), rs._cd(want[k])
                 fields = sorted(x for x in set(gd) | set(wd) if x not in gd or x not in wd or dg.diff(gd[x], wd[x]) is not None)
